@@ -361,8 +361,10 @@ class TDS(BaseRoutine):
         # only initializing at t<0 allows to continue when `run` is called again.
         if system.dae.t < 0:
             self.init()
-        else:  # resume simulation
+        elif system.dae.t > config.t0:  # resume simulation
             self.init_resume()
+        # otherwise `init()` has been called explicitly and nothing has been
+        # integrated yet: start from the initial time like a fresh run
 
         if system.options.get("init") is True:
             logger.debug("Initialization only is requested and done")
